@@ -143,11 +143,11 @@ def gen_case(rng, tier):
             cur[:] = new
 
     BQM_OPS = [("add_variable", 4), ("add_linear", 6), ("set_linear", 4), ("add_quadratic", 10), ("set_quadratic", 6),
-               ("add_linear_from", 3), ("add_quadratic_from", 4), ("lin_array", 1), ("dense", 1), ("remove_variable", 5),
+               ("add_linear_from", 3), ("add_quadratic_from", 4), ("lin_array", 1), ("dense", 3), ("remove_variable", 5),
                ("remove_variables_from", 2), ("remove_interaction", 5), ("remove_interactions_from", 2), ("contract", 4),
                ("flip", 5), ("relabel", 7), ("relabel_ints", 2), ("scale", 4), ("update", 4), ("set_offset", 3),
                ("resize", 2), ("clear", 1), ("change_vartype", 5), ("fix", 3), ("capture", 4)]
-    QM_OPS = [("q_add_variable", 8), ("add_linear", 6), ("q_add_linear_dflt", 4), ("set_linear", 4), ("add_quadratic", 10),
+    QM_OPS = [("q_add_variable", 8), ("add_linear", 6), ("q_add_linear_dflt", 4), ("q_add_linear_from_dflt", 4), ("set_linear", 4), ("add_quadratic", 10),
               ("set_quadratic", 6), ("add_linear_from", 2), ("add_quadratic_from", 3), ("q_add_variables_from", 2),
               ("remove_variable", 5), ("remove_interaction", 5), ("flip", 4), ("relabel", 6), ("relabel_ints", 2),
               ("scale", 3), ("update", 5), ("set_offset", 2), ("clear", 1), ("q_change_vartype", 5), ("fix", 3),
@@ -189,12 +189,21 @@ def gen_case(rng, tier):
         elif name == "lin_array":
             op = [name, [dy(rng) for _ in range(rng.randint(0, 4))]]
         elif name == "dense":
-            n = rng.randint(1, 4)
+            # add_quadratic_from_dense needs labels 0..n-1: make the model range-labelled first; the matrix is full and not
+            # symmetric (entries above and below the diagonal; zero diagonal and no cancelling pair, open finding d5)
+            if cur and [lkey(x) for x in cur] != [repr(i) for i in range(len(cur))]:
+                steps.append({"h": "base", "op": ["relabel_ints", True]})
+                cur[:] = list(range(len(cur)))
+            n = rng.randint(1, max(1, min(5, len(cur))))
             mat = [["0"] * n for _ in range(n)]
             for i in range(n):
                 for j in range(n):
-                    if i != j and rng.random() < 0.4:
+                    if i != j and rng.random() < 0.7:
                         mat[i][j] = dy(rng)
+            for i in range(n):
+                for j in range(i + 1, n):
+                    if F(mat[i][j]) != 0 and F(mat[i][j]) + F(mat[j][i]) == 0:
+                        mat[j][i] = str(F(mat[j][i]) + 1)
             op = [name, mat]
         elif name == "remove_variable":
             v = None if rng.random() < 0.2 else lab(0.9)
@@ -281,6 +290,14 @@ def gen_case(rng, tier):
             v = lab(0.4); note(v)
             lb = rng.choice([None, 0, -2, 1]); ub = rng.choice([None, 3, 1, 7.5])
             op = [name, v, dy(rng), vt, lb, ub]
+        elif name == "q_add_linear_from_dflt":
+            vt = rng.choice(['BINARY', 'SPIN', 'INTEGER', 'INTEGER', 'REAL', None])
+            items = [[lab(0.4), dy(rng)] for _ in range(rng.randint(0, 3))]
+            lb = rng.choice([None, None, 0, -2, 1]); ub = rng.choice([None, None, 3, 1, 7.5])
+            if vt is not None:
+                for v, _ in items:
+                    note(v)
+            op = [name, items, vt, lb, ub]
         elif name == "q_add_variables_from":
             op = [name, rng.choice(['BINARY', 'SPIN', 'INTEGER']), [lab(0.3) for _ in range(rng.randint(0, 3))]]
         elif name == "q_change_vartype":
@@ -591,7 +608,8 @@ def run_op(t, hname, op, T, avoid):
             coq = "(OAddQuadraticFrom " + clist([f"({cnat(T.idx(i))}, {cnat(T.idx(j))}, {cq(b)})" for i, j, b in trip]) + ")"
             isr = [lkey(v) for v in m.variables] == [repr(i) for i in range(len(m.variables))]
             plain = (isr and n <= len(m.variables) and all(F(op[1][i][i]) == 0 for i in range(n))
-                     and all(F(op[1][i][j]) == 0 or F(op[1][j][i]) == 0 for i in range(n) for j in range(n)))
+                     and all(F(op[1][i][j]) == 0 or F(op[1][j][i]) == 0 or F(op[1][i][j]) + F(op[1][j][i]) != 0
+                             for i in range(n) for j in range(n)))
             if plain or not avoid:
                 m.add_quadratic_from_dense(np.array([[fl(x) for x in row] for row in op[1]], dtype=np.float64))
             else:
@@ -709,6 +727,14 @@ def run_op(t, hname, op, T, avoid):
         elif name == "q_add_linear_dflt":
             coq = f"(OQAddLinearDflt {N(op[1])} {cq(F(op[2]))} {op[3]} {oq(op[4])} {oq(op[5])})"
             m.add_linear(L(op[1]), fl(op[2]), default_vartype=op[3], default_lower_bound=op[4], default_upper_bound=op[5])
+        elif name == "q_add_linear_from_dflt":
+            if op[2] is None:
+                # no default vartype: the default bounds are passed on to add_linear but never used
+                coq = f"(OAddLinearFrom {clist([cpair(N(v), cq(F(b))) for v, b in op[1]])})"
+            else:
+                coq = (f"(OQAddLinearFromDflt {clist([cpair(N(v), cq(F(b))) for v, b in op[1]])} {op[2]} {oq(op[3])} {oq(op[4])})")
+            m.add_linear_from([(L(v), fl(b)) for v, b in op[1]], default_vartype=op[2],
+                              default_lower_bound=op[3], default_upper_bound=op[4])
         elif name == "q_add_variables_from":
             coq = f"(OQAddVariablesFrom {op[1]} {clist([N(v) for v in op[2]])})"
             m.add_variables_from(op[1], [L(v) for v in op[2]])
